@@ -101,6 +101,31 @@ def coq_q(fr):
     return "(%d#%d)" % (fr.numerator, fr.denominator)
 
 
+def coq_val(x):
+    """decoded implementation result -> Coq term of type Base.PyVal.val"""
+    if x is None:
+        return "VNone"
+    if isinstance(x, bool):
+        return "(VB %s)" % ("true" if x else "false")
+    if isinstance(x, NonFinite):
+        if "nan" in x.lower():
+            return "VNaN"
+        raise ValueError("infinite value from the implementation")
+    if isinstance(x, Fraction):
+        return "(VQ %s)" % coq_q(x)
+    if isinstance(x, int):
+        return "(VQ %s)" % coq_q(Fraction(x))
+    if isinstance(x, tuple) and len(x) == 2 and x[0] == "enum":
+        return '(VEnum "%s")' % x[1]
+    if isinstance(x, tuple) and len(x) == 2 and x[0] == "nonfinite":
+        if "nan" in str(x[1]).lower():
+            return "VNaN"
+        raise ValueError("infinite value from the implementation")
+    if isinstance(x, (list, tuple)):
+        return "(VTup [%s])" % "; ".join(coq_val(e) for e in x)
+    raise ValueError("cannot express %r as a val" % (x,))
+
+
 def coq_list(xs, f=coq_q):
     return "[" + "; ".join(f(x) for x in xs) + "]"
 
